@@ -228,6 +228,24 @@ def codec_safe(t):
     return t[1] != "m" and all((not m[2]) and codec_safe(m[3]) for m in t[2])
 
 
+def ascii_only(v):
+    """reader-side cases: the real codec writes a non-ASCII char8 as UTF-8 but reads one byte back (C09)"""
+    k = v[0]
+    if k == "P":
+        return ("P", v[1], 65) if v[1] == "c8" and v[2] > 127 else v
+    if k == "Q":
+        return ("Q", v[1], [65 if v[1] == "c8" and z > 127 else z for z in v[2]])
+    if k == "{":
+        return ("{", [(i, ascii_only(x)) for i, x in v[1]])
+    if k == "R":
+        return ("R", [[(i, ascii_only(x)) for i, x in d] for d in v[1]])
+    return v
+
+
+def gen_r_fields(r, t):
+    return [(i, ascii_only(x)) for i, x in gen_fields(r, t)]
+
+
 def gen_safe_topic_type(r):
     for _ in range(200):
         t = gen_topic_type(r)
@@ -490,7 +508,7 @@ def gen(r, tier):
         cases += pair_cases(r, t, 6, 12 if tier == "quick" else 60)
         if codec_safe(t):
             for _ in range(3):
-                cases.append(("r", t, gen_fields(r, t)))
+                cases.append(("r", t, gen_r_fields(r, t)))
     # MD5 differential: byte-sequence keys of every length around the block boundaries
     for ln in list(range(13, 140)) + [183, 184, 247, 248, 500]:
         if tier == "quick" and ln > 70 and ln % 3:
@@ -507,7 +525,7 @@ def gen(r, tier):
             # reader-side derivations: sample types the XCDR codec handles (outside: corpus witnesses)
             t = gen_safe_topic_type(r)
             for _ in range(3):
-                cases.append(("r", t, gen_fields(r, t)))
+                cases.append(("r", t, gen_r_fields(r, t)))
     # a few types outside the supported fragment / degenerate
     cases.append(("h", ("S", "f", [(0, True, False, ("q", ("q", ("p", "u8"), 0), 0))]),
                   [(0, ("Q", "u8", [1]))], [(0, ("Q", "u8", [1]))]))
